@@ -162,7 +162,9 @@ def main(argv=None):
             observed=agg["notes"],
             shards=len(results),
             hashseeds=sorted(set(r["hashseed"] for r in results)),
-            exhaustive=bool(getattr(mod, "EXHAUSTIVE", {}).get(a.tier, False)) and not reasons,
+            # only when every shard finished its exhaustive universe
+            exhaustive=bool(getattr(mod, "EXHAUSTIVE", {}).get(a.tier, False)) and not reasons
+            and agg["notes"].get("exhaustive_done", len(results)) == len(results),
             known_findings_reproduced={k: agg["sig_count"].get("known:" + k, 0) for k in known_seen},
             findings_by_signature=agg["sig_count"],
             inconclusive_reasons=reasons,
